@@ -75,7 +75,7 @@ func TestC10Child(t *testing.T) {
 	}
 	r := newRun(w, cfg.H)
 	say("READY")
-	for i, op := range cfg.H.Ops {
+	for i, op := range cfg.H.flat() {
 		say("BEGIN " + strconv.Itoa(i))
 		if r.apply(op) {
 			say("END " + strconv.Itoa(i))
@@ -115,10 +115,11 @@ func diskScratch() (string, error) {
 func checkB(c CaseB) *core.Violation {
 	lastB = outcomeB{image: "none"}
 	countCells(c.H)
-	if len(c.H.Ops) == 0 {
+	ops := c.H.flat()
+	if len(ops) == 0 {
 		return nil
 	}
-	killOp := c.KillOp % len(c.H.Ops)
+	killOp := c.KillOp % len(ops)
 	if killOp < 0 {
 		killOp = -killOp
 	}
@@ -247,7 +248,7 @@ func checkB(c CaseB) *core.Violation {
 	defer ref.Close()
 	rr := newRun(ref, c.H)
 	for i := 0; i <= ended; i++ {
-		rr.apply(c.H.Ops[i])
+		rr.apply(ops[i])
 	}
 	d0, err := dumpTables(ref.SQL)
 	if err != nil {
@@ -256,7 +257,7 @@ func checkB(c CaseB) *core.Violation {
 	d1 := d0
 	inflightDeliverable := false
 	if inflight >= 0 {
-		inflightDeliverable = rr.apply(c.H.Ops[inflight])
+		inflightDeliverable = rr.apply(ops[inflight])
 		if d1, err = dumpTables(ref.SQL); err != nil {
 			panic("harness: " + err.Error())
 		}
@@ -279,7 +280,7 @@ func checkB(c CaseB) *core.Violation {
 
 	kind := "none"
 	if inflight >= 0 {
-		kind = c.H.Ops[inflight].K
+		kind = ops[inflight].K
 	}
 	lastB = outcomeB{inflight: inflight >= 0 && inflightDeliverable, kind: kind, reached: ended}
 	sawBefore, sawAfter := false, false
@@ -353,6 +354,15 @@ func checkB(c CaseB) *core.Violation {
 func genB(t *rapid.T) CaseB {
 	var c CaseB
 	nreg, n := 0, 0
+	if uniformBits(t, 7, "scale-bit") == 0 {
+		c.H = genScaleHistory(t, "b") // scale_test.go: 1 history in 128; kill points over the expanded operations
+		c.KillOp = rapid.IntRange(0, len(c.H.flat())-1).Draw(t, "kill_op")
+		c.During = rapid.IntRange(0, 3).Draw(t, "during") != 0
+		if c.During {
+			c.DelayUS = rapid.IntRange(0, 6000).Draw(t, "delay_us")
+		}
+		return c
+	}
 	if rapid.IntRange(0, 4).Draw(t, "pivot-trees") == 0 {
 		c.H = genPivotHistory(t, 4, 10) // piv_test.go
 		nreg, n = 1, len(c.H.Ops)-1
@@ -400,7 +410,7 @@ func TestC10b(t *testing.T) {
 	}
 	core.Run(t, core.Spec[CaseB]{
 		Property: "C10", Sub: "b",
-		Rule: "FAULT ENUMERATION by generated kill points: a child process applies a generated history (1-4 registrations + 1-14 operations as in (a), SMB/External listeners only) to a database on disk and reports BEGIN i / END i; it is SIGKILLed either while idle after END k or delay_us (0-20000) after BEGIN k; the actual progress is read from the report pipe. Oracle: differential against an unkilled reference run of the same history - every TS_Agents / TS_Links / TS_Listeners row equals its image after all acknowledged operations, except that rows touched by the single in-flight operation may be in their before- or after-image (the two wall-clock columns FirstCallIn/LastCallIn are not compared). Non-trivial: the kill landed inside an operation (BEGIN reported, END not; measured); distinct = (kind of the in-flight operation, before/after/mixed image observed, db fresh/existed/golden) ADDED: a fifth of the histories are pivot-tree histories with restarts at any point as in (a) (3-4 agents, 3-10 events; the restart operations are carried out inside the child, kills land in and between them as for every other operation) ADDED: a third of the listener adds come from the listener kind x name class product of (a), kinds smb and ext only",
+		Rule: "FAULT ENUMERATION by generated kill points: a child process applies a generated history (1-4 registrations + 1-14 operations as in (a), SMB/External listeners only) to a database on disk and reports BEGIN i / END i; it is SIGKILLed either while idle after END k or delay_us (0-20000) after BEGIN k; the actual progress is read from the report pipe. Oracle: differential against an unkilled reference run of the same history - every TS_Agents / TS_Links / TS_Listeners row equals its image after all acknowledged operations, except that rows touched by the single in-flight operation may be in their before- or after-image (the two wall-clock columns FirstCallIn/LastCallIn are not compared). Non-trivial: the kill landed inside an operation (BEGIN reported, END not; measured); distinct = (kind of the in-flight operation, before/after/mixed image observed, db fresh/existed/golden) ADDED: a fifth of the histories are pivot-tree histories with restarts at any point as in (a) (3-4 agents, 3-10 events; the restart operations are carried out inside the child, kills land in and between them as for every other operation) ADDED: a third of the listener adds come from the listener kind x name class product of (a), kinds smb and ext only ADDED - SCALE (1 history in 128): as in (a) with the pool cut at 129 sessions / 129 listeners (quick; 513 / 257 thorough) because the child's database is on disk; the kill point is drawn over the expanded operations",
 		Gen:   genB, Check: checkB, Classify: classifyB,
 		Assumptions: []string{
 			"process kill only (SIGKILL); no power-loss / torn-page simulation",
